@@ -26,13 +26,14 @@ import random
 import re
 from typing import Any, Callable, Dict, List, Optional, Tuple
 
-from . import sched, tlc
+from . import provrefs, provtrace, sched, tlc
 from .core import Check, MachineryError, workdir
 
 PID = "C07"
 WL = ("ok", "fail", "host", "noprov")
 MODEL_STEPS = {"ok": 4, "fail": 4, "host": 7, "noprov": 2}
 _setup_done = [False]
+_PTR: List[Any] = []          # operation traces of the provide functions recorded during fine-grained schedules
 
 
 def _setup():
@@ -183,20 +184,27 @@ def replay_schedules(chk: Check, w: Tuple[str, ...], limit: Optional[int], rnd: 
     sched.clear_registries()
     if limit and len(scheds) > limit:
         scheds = rnd.sample(scheds, limit)
+    ptr = []
     for sc in scheds:
         ch = section_chooser(sc, len(w))
         s = sched.Scheduler(ch)
         sched.set_scheduler(s, registries=False)
         sched.YIELD_LOCKS.clear()
         sched.YIELD_LOCKS.add("provide_lock")      # the model's steps are the sections of the provide lock
+        rec = provtrace.start(multi=True)
         try:
             res = s.run(tasks)
         except sched.Deadlock as e:
             chk.violation({"label": "tlc-schedule", "workloads": w, "schedule": sc}, {"what": "deadlock", "msg": str(e)})
             sched.set_scheduler(None)
+            provtrace.stop()
             continue
         sched.set_scheduler(None)
         sched.YIELD_LOCKS.clear()
+        if rec:
+            # the interleaved calls of all threads, in the order of their linearization points
+            provtrace.mark_end(False)
+            ptr.append(({"workloads": list(w), "schedule": sc}, provtrace.project(provtrace.stop() or [], None)))
         chk.count(["tlc-schedule", w, sc])
         steps = [sum(1 for t, lab in s.trace if t == i and lab == "provide_lock.acquire") for i in range(len(w))]
         if steps != [MODEL_STEPS[x] for x in w] or ch.state["diverged"]:
@@ -208,6 +216,10 @@ def replay_schedules(chk: Check, w: Tuple[str, ...], limit: Optional[int], rnd: 
             chk.violation({"label": "tlc-schedule", "workloads": w, "schedule": sc},
                           {"what": "interference" if bad else "residue", "threads": bad,
                            "observed": [res[i] for i in bad], "solo": [solos[i] for i in bad], "residue": left})
+    if ptr:
+        # code -> spec at operation level: every interleaved history of calls of the provide functions must be a
+        # behaviour of the (sequential, atomic-action) machine ProvideRefs.tla - i.e. the critical sections linearise
+        provrefs.validate(chk, ptr, "tlc-schedule")
     chk.add("tlc_schedules_replayed", len(scheds))
     chk.sample({"workloads": w, "schedule": scheds[0] if scheds else None, "solo_results": solos}, limit=3)
 
@@ -234,6 +246,7 @@ def explore(chk: Check, label: str, mk_tasks: Callable[[], List[Callable[[], Any
         s = sched.Scheduler(ch)
         sched.WATCH_ON[0] = lines
         sched.set_scheduler(s, registries=True)
+        rec = label.startswith("provide") and provtrace.start(multi=True)
         try:
             res = s.run(tasks)
         except sched.Deadlock as e:
@@ -242,6 +255,9 @@ def explore(chk: Check, label: str, mk_tasks: Callable[[], List[Callable[[], Any
         finally:
             sched.set_scheduler(None)
             sched.WATCH_ON[0] = False
+            if rec:
+                provtrace.mark_end(False)
+                _PTR.append(({"label": label, "chooser": ch_name}, provtrace.project(provtrace.stop() or [], None)))
         chk.count([label, ch_name])
         left = sched.registries_empty()
         sched.clear_registries()
@@ -304,6 +320,11 @@ def body(chk: Check, *, pairs, triples, limit, n_pre2: int, n_random: int, slot_
     for w in [("ok", "ok"), ("host", "fail"), ("fail", "fail"), ("noprov", "fail"), ("host", "host", "fail"), ("ok", "fail", "noprov")]:
         chs = [(f"rnd{k}", sched.random_chooser(random.Random(rnd.random()), 0.25)) for k in range(n_random)]
         explore(chk, "provide " + "|".join(w), mk(w), chs, lines=False)
+    if _PTR:
+        # every fine-grained interleaving above, seen as a history of calls of the provide functions (logged at their
+        # linearization points), must be a behaviour of the sequential machine ProvideRefs.tla
+        provrefs.validate(chk, list(_PTR), "fine-grained")
+        del _PTR[:]
     # slots and fills: state that must be confined to the rendering thread (fill collection, default aliases,
     # is_filled) and the generation of render ids; pre-emption before every line of slots.py, util/nanoid.py and
     # util/misc.py: random schedules + a sweep of single pre-emptions
